@@ -628,6 +628,10 @@ func (x *codecX) layout(t *types.Named, dir, prefix string, depth int) ([]LItem,
 	}
 	if ps := fi.Decl.Type.Params.List; len(ps) == 1 && len(ps[0].Names) == 1 {
 		c.buf = x.info.Defs[ps[0].Names[0]]
+	} else if len(ps) == 1 && len(ps[0].Names) == 0 {
+		// an unnamed buffer parameter: the body cannot touch the buffer (the codec of a
+		// message without fields)
+		c.buf = nil
 	} else {
 		return nil, cerr(fi.Decl.Pos(), "%s: expected exactly one buffer parameter", fi.Key)
 	}
